@@ -31,6 +31,8 @@ def make_policy(spec: Tuple, rnd) -> baton.Policy:
         return baton.UniformPolicy(rnd)
     if kind == 'sticky':
         return baton.RandomPolicy(rnd, change=0.05, sticky=0.8)
+    if kind == 'script':
+        return baton.ScriptPolicy(list(spec[1]), baton.Fifo())
     if kind == 'stall':
         base = baton.Fifo() if len(spec) < 4 or spec[3] == 'fifo' else baton.RandomPolicy(rnd, 0.03)
         return baton.StallPolicy(spec[1], spec[2], base)
@@ -232,6 +234,55 @@ def schedule_jobs(r, n: int, prefix: str) -> List[tuple]:
     return jobs[:n]
 
 
+def tlc_schedules(chk: Check, n: int, played: bool, sync: str = 'barrier',
+                  want_deadlock: bool = False) -> Tuple[List[List[str]], tuple, List[int]]:
+    """Behaviours of the Table model (simulation) as schedules: the order in
+    which the threads take their steps."""
+    from . import tablemodel
+    r = rng('sched', played, sync)
+    dealer = seed() % 4
+    board = tablemodel.small_board(r, 1, dealer, (seed() + 1) % 4)
+    calls = [0, 35, 35, 35] if played else [35, 35, 35, 35]
+    script = tablemodel.script_for(*board, calls, 1, r)
+    d = tablemodel.mc_module('MCTableS', tablemodel.GOOD, [board], [script])
+    (d / 'MCTableS.tla').write_text((d / 'MCTableS.tla').read_text()
+                                    .replace('EXTENDS Table\n', 'EXTENDS TableSched\n'))
+    cfg = tablemodel.table_cfg(1, sync=sync,
+                               invs=['ExportDeadlock' if want_deadlock else 'ExportSchedule'],
+                               deadlock=False).replace('SPECIFICATION Spec', 'SPECIFICATION SSpec')
+    res = tlc.run_tlc('MCTableS', cfg, workers=1, spec_dir=d, simulate=f'num={n}', depth=700,
+                      seed=seed() + 5, timeout=1200, name='table-sched')
+    tlc.require_clean(res, 'schedule export')
+    chk.add_tlc(res, f'Table behaviours exported as schedules (simulation, sync={sync}, '
+                     f'played={played})')
+    out, seen = [], set()
+    for j in res.json_lines:
+        if j.get('done') == (not want_deadlock):
+            key = tuple(j['sched'])
+            if key not in seen:
+                seen.add(key)
+                out.append(['main' if p == 0 else f'seat{p - 1}' for p in j['sched'] if p >= 0])
+    return out, board, calls
+
+
+def replay_jobs(chk: Check, n: int, prefix: str) -> List[tuple]:
+    jobs = []
+    for played in (False, True):
+        scheds, board, calls = tlc_schedules(chk, n, played)
+        deal, dealer, vul = board
+        # the real board has 13 cards per hand: the model's deal is its first trick
+        r = rng('replay', played)
+        rest = [c for c in range(52) if all(c not in h for h in deal)]
+        r.shuffle(rest)
+        full = [sorted(list(deal[s]) + rest[12 * s:12 * (s + 1)]) for s in range(4)]
+        style = {'auction': 'script', 'script': calls}
+        for k, sc in enumerate(scheds):
+            cfg = {'boards': [(full, dealer, vul, f'tlc{k}', None)], 'seed': seed() + k,
+                   'styles': [dict(style)] * 4, 'vary': False, 'policy_spec': ('script', sc)}
+            jobs.append((f'{prefix}{int(played)}.{k}', cfg, 'normal', None))
+    return jobs
+
+
 def abort_jobs(r, n: int, prefix: str) -> List[tuple]:
     """An offence by one seat at call j / card j of board k of n, or an
     operator interrupt while the main thread is at one of its scheduling
@@ -371,7 +422,8 @@ def run_into(chk: Check, pid: str, tier: str) -> None:
     tablemodel.design(chk, pid, tier)
     if pid == 'C09':
         n = 240 if quick else 12000
-        jobs = schedule_jobs(r, n, 'k') + normal_jobs(r, 40 if quick else 800, 'n')
+        jobs = schedule_jobs(r, n, 'k') + normal_jobs(r, 40 if quick else 800, 'n') + \
+            replay_jobs(chk, 12 if quick else 400, 't')
     elif pid == 'C13':
         jobs = abort_jobs(r, 150 if quick else 3000, 'a')
     elif pid == 'C20':
